@@ -260,7 +260,7 @@ func scenarioOmni(t *traceWriter, rng *rand.Rand) {
 				l.setSz(sched[i][st])
 			}
 			// the witness must catch up within a bounded number of poll intervals
-			deadline := time.Now().Add(60 * opc.FeedInterval)
+			deadline := time.Now().Add(200 * opc.FeedInterval) // 8 s: only a service that does not follow runs into it
 			if thorough() {
 				deadline = time.Now().Add(20 * time.Second)
 			}
